@@ -2,11 +2,11 @@
 Helper lemmas for the no-wedge invariants of C02/C03: ack list, cumulative una, the move loop,
 the receive-side store.  Core Lean only.
 -/
-import KcpVerif.Lemmas.KcpFlush
+import KcpVerif.Lemmas.KcpLiveFlush
 import KcpVerif.Lemmas.KcpInput
 
-namespace KcpVerif.Kcp
-open KcpVerif KcpVerif.Gen
+namespace KcpVerif.Live
+open KcpVerif KcpVerif.Gen KcpVerif.Kcp
 
 /-! ### ack list -/
 
@@ -370,4 +370,4 @@ theorem effWnd_zero (k : Kcp) (h : k.rmt_wnd = 0) : effWnd k = 0 := by
   repeat' split
   all_goals bv_omega
 
-end KcpVerif.Kcp
+end KcpVerif.Live
